@@ -618,3 +618,182 @@ pub fn big_integers() -> Vec<String> {
     out.dedup();
     out
 }
+
+/// Runs of adjacent prefix signs: every word over {-, +} of 1..=`max` signs in front of every edge operand (the
+/// placeholder over the critical pool, the ends of the range as bracketed texts, literals), alone and inside the
+/// contexts that bind tighter or looser than a prefix sign. Each sign is its own operation: `--x` is -(-x), so an
+/// inner minus that overflows (or changes the variant, or the sign of a zero) must not be cancelled against the outer one.
+pub fn sign_runs(ev: Ev, max: usize) -> Vec<String> {
+    let mut runs: Vec<String> = vec![String::new()];
+    let mut all: Vec<String> = Vec::new();
+    for _ in 0..max {
+        let mut next = Vec::new();
+        for r in &runs {
+            for c in ['-', '+'] {
+                next.push(format!("{}{}", r, c));
+            }
+        }
+        all.extend(next.iter().cloned());
+        runs = next;
+    }
+    let mut operands: Vec<String> = vec!["@".into(), "(@)".into(), "0".into(), "1".into(), "7".into(), "(0)".into(), "(1-1)".into(), "(0*-1)".into()];
+    match ev {
+        Ev::I64 => operands.extend(["9223372036854775807", "(-9223372036854775807-1)", "(-9223372036854775807)", "abs(9223372036854775807)"].map(String::from)),
+        Ev::Num => operands.extend(["9223372036854775807", "(-9223372036854775807-1)", "(-9223372036854775807)", "9223372036854775808", "2.5", "(0/1)", "(0.0)"].map(String::from)),
+        Ev::Dec => operands.extend(["79228162514264337593543950335", "(-79228162514264337593543950335)", "0.0", "2.50", "(0.00*-1)"].map(String::from)),
+        _ => operands.extend(["0.0", "2.5", "(1/0)", "(0/0)", "(-0.0)", "1e308"].map(String::from)),
+    }
+    if ev == Ev::Cpx {
+        operands.extend(["i", "(0*i)", "(2+3i)"].map(String::from));
+    }
+    let mut inputs: Vec<String> = Vec::new();
+    for r in &all {
+        for x in &operands {
+            inputs.push(format!("{}{}", r, x));
+            inputs.push(format!("2*{}{}", r, x));
+            inputs.push(format!("1-{}{}", r, x));
+            inputs.push(format!("1+{}{}", r, x));
+            inputs.push(format!("{}{}^2", r, x));
+            inputs.push(format!("{}{}²", r, x));
+            inputs.push(format!("2^{}{}", r, x));
+            inputs.push(format!("abs({}{})", r, x));
+            inputs.push(format!("1/{}{}", r, x));
+            inputs.push(format!("({}{})", r, x));
+            inputs.push(format!("{}{}*1", r, x));
+            inputs.push(format!("{}{}-1", r, x));
+        }
+    }
+    inputs
+}
+
+
+/// The exact decimal expansions of the midpoints between adjacent doubles, each as it stands (a tie), a hair below
+/// and a hair above it, and with redundant zeros, in every spelling of the same digits.
+fn mag_to_decimal(m: &crate::big::Mag) -> String {
+    let mut parts: Vec<u32> = Vec::new();
+    let mut cur = m.clone();
+    while !cur.is_zero() {
+        let (q, r) = cur.divrem_small(1_000_000_000);
+        parts.push(r);
+        cur = q;
+    }
+    match parts.pop() {
+        None => "0".to_string(),
+        Some(top) => {
+            let mut t = top.to_string();
+            for p in parts.iter().rev() {
+                t.push_str(&format!("{:09}", p));
+            }
+            t
+        }
+    }
+}
+
+/// (integer digits, fraction digits) of m * 2^e, exactly
+fn dyadic_digits(m: u64, e: i32) -> (String, String) {
+    let mut v = crate::big::Mag::from_u128(m as u128);
+    if e >= 0 {
+        for _ in 0..e {
+            v = v.mul_small(2);
+        }
+        (mag_to_decimal(&v), String::new())
+    } else {
+        let k = (-e) as usize;
+        for _ in 0..k {
+            v = v.mul_small(5);
+        }
+        let d = mag_to_decimal(&v);
+        let d = if d.len() <= k { format!("{}{}", "0".repeat(k + 1 - d.len()), d) } else { d };
+        let (ip, fp) = d.split_at(d.len() - k);
+        (ip.to_string(), fp.trim_end_matches('0').to_string())
+    }
+}
+
+pub fn midpoint_literals() -> Vec<String> {
+    let mut out = Vec::new();
+    let pool: [f64; 30] = [
+        0.5, 0.1, 0.2, 0.3, 0.7, 0.25, 0.001, 1e-5, 1e-10, 1e-20, 1e-40, 1.0, 1.5, 2.0, 3.141592653589793, 2.718281828459045, 10.0, 123.456,
+        1e10, 4503599627370496.0, 9007199254740992.0, 1e22, 1e23, 1e40, 0.9999999999999999, 0.49999999999999994, 65536.0, 0.0625, 7.0, 1e-7,
+    ];
+    for x in pool {
+        for b in [x.to_bits(), x.to_bits() - 1] {
+            // midpoint between the double with bits b and the next one: (2m + 1) * 2^(e - 1)
+            let exp = ((b >> 52) & 0x7ff) as i32;
+            let frac = b & ((1u64 << 52) - 1);
+            let (m, e) = if exp == 0 { (frac, -1074) } else { (frac | (1u64 << 52), exp - 1075) };
+            let (ip, fp) = dyadic_digits(2 * m + 1, e - 1);
+            if ip.len() + fp.len() > 600 {
+                continue;
+            }
+            let mut fracs: Vec<String> = vec![fp.clone()];
+            if !fp.is_empty() {
+                // the expansion of an odd multiple of a negative power of two ends in 5
+                let below = format!("{}4{}", &fp[..fp.len() - 1], "9".repeat(12));
+                fracs.push(below);
+                fracs.push(format!("{}1", fp));
+                fracs.push(format!("{}{}1", fp, "0".repeat(30)));
+                fracs.push(format!("{}{}", fp, "0".repeat(30)));
+            } else {
+                fracs.push("0".repeat(25) + "1");
+                fracs.push("0".repeat(60));
+            }
+            for f in fracs {
+                let ipt = ip.trim_start_matches('0');
+                if ipt.is_empty() {
+                    out.push(format!(".{}", f));
+                    out.push(format!("0.{}", f));
+                    out.push(format!("000.{}", f));
+                } else if f.is_empty() {
+                    out.push(ipt.to_string());
+                    out.push(format!("{}.", ipt));
+                    out.push(format!("0{}", ipt));
+                } else {
+                    out.push(format!("{}.{}", ipt, f));
+                    out.push(format!("00{}.{}", ipt, f));
+                }
+            }
+            if fp.is_empty() {
+                // an integer midpoint: one below
+                out.push(format!("{}.{}", {
+                    let v = crate::big::Mag::from_decimal_digits(&ip).sub(&crate::big::Mag::from_u128(1));
+                    mag_to_decimal(&v)
+                }, "9".repeat(30)));
+            }
+        }
+    }
+    out
+}
+
+
+/// The operands on which Euclid's algorithm runs longest: neighbouring Fibonacci numbers up to F(92) < 2^63
+/// (91 remainder steps), their multiples, negatives, both orders, triples, and with the placeholder.
+pub fn fibonacci_gcd() -> Vec<String> {
+    let mut fib: Vec<i128> = vec![1, 1];
+    while fib.len() < 93 {
+        let n = fib.len();
+        fib.push(fib[n - 1] + fib[n - 2]);
+    }
+    let mut fl: Vec<String> = Vec::new();
+    for n in 2..92usize {
+        let (a, b, c) = (fib[n], fib[n + 1], fib[n - 1]);
+        if b > i64::MAX as i128 {
+            break;
+        }
+        for name in ["gcd", "lcm"] {
+            fl.push(format!("{}({},{})", name, a, b));
+            fl.push(format!("{}({},{})", name, b, a));
+            fl.push(format!("{}(-{},{})", name, b, a));
+            fl.push(format!("{}({},{},{})", name, b, a, c));
+            fl.push(format!("{}({},{},{})", name, c, b, a));
+            for k in [2i128, 3, 6, 1000003] {
+                if b * k <= i64::MAX as i128 {
+                    fl.push(format!("{}({},{})", name, a * k, b * k));
+                    fl.push(format!("{}({},{})", name, b * k, a * k));
+                }
+            }
+            fl.push(format!("{}({},@)", name, b));
+            fl.push(format!("{}(@,{})", name, a));
+        }
+    }
+    fl
+}
